@@ -32,6 +32,9 @@ type c10Plan struct {
 	// package that is incomplete when a packet ends is parsed again when the next packet arrives.
 	PacketBody int `json:"packet_body,omitempty"`
 	ReadSize   int `json:"read_size,omitempty"`
+	// QueueBefore > 0: before it reads the response the client queues that many bytes of its next message without
+	// sending them: what the response announces (a packet size) meets a partly filled packet.
+	QueueBefore int `json:"queue_before,omitempty"`
 }
 
 type c10 struct{}
@@ -163,7 +166,7 @@ func c10LenTypes() []peer.Entry {
 var c10CrossSeqs = [][]byte{{0xD1, 0xD1}, {0xD1, 0xD7}, {0xD7, 0xD1}, {0xD7, 0xD7}, {0xD7, 0xD7, 0xD1}, {0xD1, 0xD1, 0xD7}}
 
 func (c10) NRuns(tier string) int {
-	n := c10BuildEnum(tier).total + len(c10LenTypes())*256 + 10*2*24 + len(fmtNames)*len(c10CrossSeqs) + len(c10PackSizes) + len(c10Dribbles)
+	n := c10BuildEnum(tier).total + len(c10LenTypes())*256 + 10*2*24 + len(fmtNames)*len(c10CrossSeqs) + 2*len(c10PackSizes) + len(c10Dribbles)
 	if tier == "thorough" {
 		return n + 3000000
 	}
@@ -300,16 +303,20 @@ func c10Gen(r *Rand, idx int, tier string) *c10Plan {
 		return p
 	}
 	i -= len(fmtNames) * len(c10CrossSeqs)
-	if i < len(c10PackSizes) {
-		// an environment change announcing a packet size; the client's next request uses it
-		val := c10PackSizes[i]
+	if i < 2*len(c10PackSizes) {
+		// an environment change announcing a packet size; the client's next request uses it (second pass: the next
+		// request was begun before the response was read)
+		val := c10PackSizes[i%len(c10PackSizes)]
+		if i >= len(c10PackSizes) {
+			p.QueueBefore = 100
+		}
 		body := append(peer.EnvChange(peer.EnvMember{Type: 4, New: val, Old: "512"}), peer.Done(0, 0, 0)...)
 		p.Kind, p.Subject = "packsize", "ENVCHANGE"
 		p.Desc = fmt.Sprintf("packet size %q announced, then the client sends 600 bytes", val)
 		p.Wire = hex.EncodeToString(c10Wrap(body))
 		return p
 	}
-	i -= len(c10PackSizes)
+	i -= 2 * len(c10PackSizes)
 	if i < len(c10Dribbles) {
 		// a package that announces 65535 items and then arrives a few bytes per packet: every arriving packet makes
 		// the channel parse the package again from its start
@@ -452,7 +459,7 @@ func (c10) Run(plan interface{}, schedSeed uint64, replay []simrt.Choice, lenien
 		}
 	}
 	got := runResp(cfg, respDelivery{Packets: packets, TermAt: -1},
-		respClient{QueueSize: 100, ReadTimeoutS: 1, DebugLog: p.DebugLog, DrainFor: 5 * time.Second, NoDump: true, SendAfter: 600, Render: true, ReadSizes: readSizes})
+		respClient{QueueSize: 100, ReadTimeoutS: 1, DebugLog: p.DebugLog, DrainFor: 5 * time.Second, NoDump: true, SendAfter: 600, Render: true, ReadSizes: readSizes, QueueBefore: p.QueueBefore})
 	runtime.ReadMemStats(&ms1)
 	out := got.Out
 	StdOutcome(v, out)
